@@ -109,6 +109,7 @@ func randFault(r *RNG, h *hist, kind string, npk, ntx int) (fault, attemptOpts) 
 		}
 	case "handler":
 		o.failAt = r.Intn(ntx + 1)
+		o.cancelOnFail = r.Bool()
 	case "mapper-err":
 		o.mapperMode = fmt.Sprintf("err@%d", r.Intn(len(h.tables)))
 	case "mapper-more":
